@@ -69,7 +69,9 @@ type batch struct {
 // the way are counted as "foreign" in the evidence.
 var plans = map[string][]batch{
 	"C03": {{Driver: "C03", Build: "plain", Quick: 8000, Thor: 240000}},
-	"C06": {{Driver: "C06", Build: "plain", Quick: 40000, Thor: 1000000}},
+	"C06": {{Driver: "C06", Build: "plain", Quick: 40000, Thor: 1000000},
+		// the other process configuration: a setting that has nothing to do with validation must not change it
+		{Driver: "C06", Build: "plain", Quick: 10000, Thor: 250000, Env: []string{"JSONSCHEMAGODEBUG=typeschemasnull=1"}}},
 	"C10": {{Driver: "C10", Build: "plain", Quick: 4000, Thor: 160000},
 		{Driver: "C03", Build: "plain", Quick: 1200, Thor: 30000}, {Driver: "C06", Build: "plain", Quick: 2000, Thor: 50000},
 		{Driver: "C14", Build: "plain", Quick: 1200, Thor: 30000}, {Driver: "C15", Build: "plain", Quick: 2000, Thor: 50000},
@@ -85,6 +87,7 @@ var plans = map[string][]batch{
 		{Driver: "C13cold", Build: "plain", Quick: 3000, Thor: 40000, ProcsQuick: 3000, ProcsThor: 40000},
 		{Driver: "C13cold", Build: "race", Quick: 400, Thor: 6000, ProcsQuick: 400, ProcsThor: 6000}},
 	"C14": {{Driver: "C14", Build: "plain", Quick: 6000, Thor: 240000}, {Driver: "C19", Build: "plain", Quick: 3000, Thor: 100000},
+		{Driver: "C14", Build: "plain", Quick: 1500, Thor: 60000, Env: []string{"JSONSCHEMAGODEBUG=typeschemasnull=1"}},
 		{Driver: "C15", Build: "plain", Quick: 1500, Thor: 50000}, {Driver: "C12", Build: "plain", Quick: 40000, Thor: 1000000}},
 	"C19": {{Driver: "C19", Build: "plain", Quick: 30000, Thor: 800000}},
 }
